@@ -112,7 +112,7 @@ Section Sound.
     - apply supp_ret in Hs. subst. exact Ht.
     - apply supp_bind in Hs. destruct Hs as (v & Hv & Hs).
       apply (IH _ (upd t x v) s'); [|exact Hs]. cbn [fst snd].
-      apply aset_sound; [exact Ht|]. intros vs Hvs. eapply rhs_vals_sound; eauto.
+      apply aset_sound; [exact Ht|]. intros vs Hvs. exact (rhs_vals_sound T s r vs HT Hvs v Hv).
   Qed.
 
   Definition stmt_ok (st : stmt) : Prop :=
@@ -125,32 +125,51 @@ Section Sound.
       (forall d, exec_branches law bs s = Some d -> forall s', supp d s' -> atyped (aexec_branches [] bs T acc) s')
       /\ (forall s', atyped acc s' -> atyped (aexec_branches [] bs T acc) s').
 
+  (* unfolding equations of the mutual fixpoints (by computation) *)
+  Lemma exec_if bs els s :
+    exec_stmt law (SIf bs els) s = match exec_branches law bs s with Some d => d | None => exec_block law els s end.
+  Proof. reflexivity. Qed.
+  Lemma exec_cons st b s : exec_block law (BCons st b) s = bind (exec_stmt law st s) (exec_block law b).
+  Proof. reflexivity. Qed.
+  Lemma exec_brcons c b bs s :
+    exec_branches law (BrCons c b bs) s = if holds c s then Some (exec_block law b s) else exec_branches law bs s.
+  Proof. reflexivity. Qed.
+  Lemma aexec_if L bs els T : aexec_stmt L (SIf bs els) T = aexec_branches L bs T (aexec_block L els T).
+  Proof. reflexivity. Qed.
+  Lemma aexec_cons L st b T : aexec_block L (BCons st b) T = aexec_block L b (aexec_stmt L st T).
+  Proof. reflexivity. Qed.
+  Lemma aexec_brcons L c b bs T acc :
+    aexec_branches L (BrCons c b bs) T acc = aexec_branches L bs T (ajoin acc (aexec_block L b T)).
+  Proof. reflexivity. Qed.
+
   Lemma exec_sound : (forall st, stmt_ok st) /\ (forall b, block_ok b) /\ (forall bs, branches_ok bs).
   Proof.
     apply stmt_block_branches_ind.
     - (* SAssign *)
-      intros x r T s s' HT Hs. cbn [exec_stmt aexec_stmt] in *.
+      intros x r T s s' HT Hs. change (exec_stmt law (SAssign x r) s) with (bind (sample law r s) (fun v => ret (upd s x v))) in Hs.
+      change (aexec_stmt [] (SAssign x r) T) with (aset [] T x (rhs_vals T r)).
       apply supp_bind in Hs. destruct Hs as (v & Hv & Hs). apply supp_ret in Hs. subst.
-      apply aset_sound; [exact HT|]. intros vs Hvs. eapply rhs_vals_sound; eauto.
+      apply aset_sound; [exact HT|]. intros vs Hvs. exact (rhs_vals_sound T s r vs HT Hvs v Hv).
     - (* SSimult *)
-      intros l T s s' HT Hs. cbn [exec_stmt aexec_stmt] in *.
+      intros l T s s' HT Hs. change (exec_stmt law (SSimult l) s) with (exec_simult law l s s) in Hs.
+      change (aexec_stmt [] (SSimult l) T) with (fold_left (fun T'' xr => aset [] T'' (fst xr) (rhs_vals T (snd xr))) l T).
       eapply simult_sound; eauto.
     - (* SIf *)
-      intros bs Hbs els Hels T s s' HT Hs. cbn [exec_stmt aexec_stmt] in *.
+      intros bs Hbs els Hels T s s' HT Hs. rewrite exec_if in Hs. rewrite aexec_if.
       destruct (Hbs T (aexec_block [] els T) s HT) as [H1 H2].
       destruct (exec_branches law bs s) as [d|] eqn:Ed.
       + apply (H1 d eq_refl). exact Hs.
       + apply H2. eapply Hels; eauto.
     - (* BNil *)
-      intros T s s' HT Hs. cbn [exec_block aexec_block] in *. apply supp_ret in Hs. subst. exact HT.
+      intros T s s' HT Hs. change (exec_block law BNil s) with (ret s) in Hs. apply supp_ret in Hs. subst. exact HT.
     - (* BCons *)
-      intros st Hst b Hb T s s' HT Hs. cbn [exec_block aexec_block] in *.
+      intros st Hst b Hb T s s' HT Hs. rewrite exec_cons in Hs. rewrite aexec_cons.
       apply supp_bind in Hs. destruct Hs as (s1 & H1 & H2).
       eapply Hb; [|exact H2]. eapply Hst; eauto.
     - (* BrNil *)
-      intros T acc s HT. cbn [exec_branches aexec_branches]. split; [intros d H; discriminate | auto].
+      intros T acc s HT. split; [intros d H; discriminate H | intros s' H; exact H].
     - (* BrCons *)
-      intros c b Hb bs Hbs T acc s HT. cbn [exec_branches aexec_branches].
+      intros c b Hb bs Hbs T acc s HT. rewrite exec_brcons, aexec_brcons.
       destruct (Hbs T (ajoin acc (aexec_block [] b T)) s HT) as [H1 H2].
       split.
       + intros d Hd s' Hs'. destruct (holds c s).
